@@ -25,8 +25,16 @@ fn build_node(
         spec::Node::Int { min, max, .. } => build_int(json_val, min, max, path),
         spec::Node::Bool { .. } => build_bool(json_val, path),
         spec::Node::Sub { map: ref spec_map } => build_sub(json_val, spec_map, path),
-        spec::Node::Array { ref value_type, .. } => build_array(json_val, value_type, path),
-        spec::Node::AnonMap { ref value_type, .. } => build_anon_map(json_val, value_type, path),
+        spec::Node::Array {
+            ref value_type,
+            size,
+        } => build_array(json_val, value_type, size, path),
+        spec::Node::AnonMap {
+            ref value_type,
+            min_size,
+            max_size,
+            ..
+        } => build_anon_map(json_val, value_type, (min_size, max_size), path),
         spec::Node::Variant {
             map: ref spec_map, ..
         } => build_variant(json_val, spec_map, path),
@@ -165,6 +173,7 @@ fn build_sub(
 fn build_array(
     json_val: &serde_json::Value,
     spec_node: &spec::Node,
+    size: usize,
     path: &[&str],
 ) -> Result<Node, Error> {
     match json_val {
@@ -178,6 +187,14 @@ fn build_array(
                 elements.push(Box::new(value));
             }
 
+            if elements.len() != size {
+                return Err(Error::WrongArrayLength {
+                    path_hint: format_path(path),
+                    expected: size,
+                    found: elements.len(),
+                });
+            }
+
             Ok(Node::Array(elements))
         }
         _ => Err(Error::WrongTypeForValue {
@@ -187,9 +204,30 @@ fn build_array(
     }
 }
 
+fn check_anon_map_size(
+    mapping: &HashMap<usize, Box<Node>>,
+    size_bounds: (Option<usize>, Option<usize>),
+    path: &[&str],
+) -> Result<(), Error> {
+    let out_of_bounds = match size_bounds {
+        (Some(min_size), _) if mapping.len() < min_size => true,
+        (_, Some(max_size)) if mapping.len() > max_size => true,
+        _ => false,
+    };
+
+    if out_of_bounds {
+        Err(Error::AnonMapSizeNotWithinBounds {
+            path_hint: format_path(path),
+        })
+    } else {
+        Ok(())
+    }
+}
+
 fn build_anon_map(
     json_val: &serde_json::Value,
     spec_node: &spec::Node,
+    size_bounds: (Option<usize>, Option<usize>),
     path: &[&str],
 ) -> Result<Node, Error> {
     match json_val {
@@ -203,6 +241,7 @@ fn build_anon_map(
                 result_mapping.insert(next_id, Box::new(value));
             }
 
+            check_anon_map_size(&result_mapping, size_bounds, path)?;
             Ok(Node::AnonMap(result_mapping))
         }
         serde_json::Value::Object(json_mapping) => {
@@ -224,6 +263,7 @@ fn build_anon_map(
                 result_mapping.insert(key, Box::new(value));
             }
 
+            check_anon_map_size(&result_mapping, size_bounds, path)?;
             Ok(Node::AnonMap(result_mapping))
         }
         _ => Err(Error::WrongTypeForValue {
